@@ -266,7 +266,7 @@ def configure(tier, avoid):
     p = gen.Params(max_stmts=12 if quick else 16, max_depth=2, expr_depth=2,
                    max_procs=2, min_procs=1, edgy=0.0, error_rate=0.0,
                    avoid=avoid)
-    return {'examples': 110 if quick else 200, 'params': p, 'tier': tier,
+    return {'examples': 110 if quick else 150, 'params': p, 'tier': tier,
             'bounds': {'pairs_per_program': 4}}
 
 
